@@ -7,7 +7,11 @@ From Verif Require Import BatchRPC.Model BatchRPC.Proofs BatchRPC.Proofs2 BatchR
 Lemma xstep_core_run : forall x l x', xstep x l = Some x' -> exists ls, run (core x) ls = Some (core x').
 Proof.
   intros x l x' H. destruct l; unfold xstep in H.
-  - destruct (step (core x) (Submit c h)) eqn:E; [|discriminate]. inversion H; subst. exists [Submit c h]. cbn [run core]. now rewrite E.
+  - destruct (step (core x) (Submit c h)) as [st|] eqn:E; [|discriminate].
+    destruct (a && closed st).
+    + destruct (step st (QueueFail c)) as [s2|] eqn:E2; inversion H; subst;
+        [exists [Submit c h; QueueFail c] | exists [Submit c h]]; cbn [run core]; rewrite E; try rewrite E2; reflexivity.
+    + inversion H; subst. exists [Submit c h]. cbn [run core]. now rewrite E.
   - destruct (sendloop x && memb c (chq x) && negb (memb c (inb x)) && is_queued (e_st (ent (core x) c))); [|discriminate].
     inversion H; subst. exists []. reflexivity.
   - destruct (round_guard x lim takes); [|discriminate].
@@ -20,6 +24,8 @@ Proof.
     destruct (run (core x) (map NoConn (inb x))) eqn:E; [|discriminate]. inversion H; subst. eexists; exact E.
   - destruct (sendloop x && closed (core x) && match inb x with [] => true | _ => false end); [|discriminate].
     destruct (run (core x) (map QueueFail (drained x))) eqn:E; [|discriminate]. inversion H; subst. eexists; exact E.
+  - destruct (sendloop x && negb (closed (core x)) && match inb x with [] => true | _ => false end); [|discriminate].
+    inversion H; subst. exists []. reflexivity.
   - destruct (sendloop x && match inb x with [] => false | _ => true end); [|discriminate].
     inversion H; subst. exists []. reflexivity.
   - destruct (core_allowed x l); [|discriminate]. destruct (step (core x) l) eqn:E; [|discriminate].
@@ -275,6 +281,7 @@ Proof.
     + destruct (sendloop x); [|discriminate]. destruct (run (core x) _); [|discriminate]. inversion H; subst; auto.
     + destruct (sendloop x); [|discriminate]. destruct (run (core x) _); [|discriminate]. inversion H; subst; auto.
     + destruct (sendloop x && closed (core x) && _); [|discriminate]. destruct (run (core x) _); [|discriminate]. inversion H; subst; auto.
+    + destruct (sendloop x && negb (closed (core x)) && _); [|discriminate]. inversion H; subst; auto.
     + congruence.
     + destruct (core_allowed x l); [|discriminate]. destruct (step (core x) l); [|discriminate]. inversion H; subst; auto.
   - intros lim takes. unfold xstep, round_guard. rewrite HR. now rewrite andb_false_r.
@@ -329,32 +336,58 @@ Proof.
     apply Hup. intros E; subst. now apply N7.
 Qed.
 
-(* once batchSendLoop has returned, a queued asynchronous call is completed only by its own context or by the sender's
-   re-check of batchConn.closed (QueueFail, fix 000f10e) -- no other step touches it *)
+(* once batchSendLoop has returned -- on close or on the idle timer -- a queued asynchronous call is completed by nothing
+   but its own context: the sender's re-check of batchConn.closed happened when it enqueued, the drain when the loop exited *)
+Lemma submit_other : forall s c0 h st c, step s (Submit c0 h) = Some st -> c <> c0 -> ent st c = ent s c.
+Proof. intros s c0 h st c H N. simpl in H. destruct (e_st (ent s c0)); try discriminate. inversion H; subst. simpl. now apply upd_other. Qed.
+Lemma queuefail_other : forall s c0 st c, step s (QueueFail c0) = Some st -> c <> c0 -> ent st c = ent s c.
+Proof.
+  intros s c0 st c H N. simpl in H. destruct (e_st (ent s c0)); try discriminate. destruct (closed s); try discriminate.
+  inversion H; subst. simpl. now apply upd_other.
+Qed.
+
 Lemma async_after_exit : forall x c l x', xreach x -> sendloop x = false -> asy x c = true ->
   e_st (ent (core x) c) = Queued -> e_comp (ent (core x) c) = [] ->
   xstep x l = Some x' ->
-  (forall k, l <> XCore (Abort c k)) -> l <> XCore (QueueFail c) ->
+  (forall k, l <> XCore (Abort c k)) ->
   ent (core x') c = ent (core x) c /\ sendloop x' = false /\ asy x' c = true.
 Proof.
-  intros x c l x' R HS HA HQ HC H N N'. pose proof (reachable_inv _ (xreach_core x R)) as I.
-  destruct l; simpl in H; try unfold round_guard in H; rewrite ?HS in H; simpl in H; try discriminate.
-  - destruct (e_st (ent (core x) c0)) eqn:ES; try discriminate. inversion H; subst; clear H. simpl.
-    assert (c0 <> c) by (intros E; subst; congruence).
-    rewrite upd_other by auto. repeat split; auto. unfold updb. destruct (Nat.eqb_spec c c0); congruence.
-  - destruct (core_allowed x l) eqn:CA; [|discriminate]. destruct (step (core x) l) as [st|] eqn:E; [|discriminate].
+  intros x c l x' R HS HA HQ HC H N. pose proof (reachable_inv _ (xreach_core x R)) as I.
+  destruct l.
+  - unfold xstep in H. destruct (step (core x) (Submit c0 h)) as [st|] eqn:E; [|discriminate].
+    assert (c <> c0).
+    { intros E0; subst c0. simpl in E. rewrite HQ in E. discriminate. }
+    assert (Hc : forall st', (if a && closed st then match step st (QueueFail c0) with Some s2 => s2 | None => st end else st) = st' -> ent st' c = ent (core x) c).
+    { intros st' Hs. destruct (a && closed st); [|subst; eapply submit_other; eauto].
+      destruct (step st (QueueFail c0)) as [s2|] eqn:E2; subst; [|eapply submit_other; eauto].
+      rewrite (queuefail_other _ _ _ _ E2 H0). eapply submit_other; eauto. }
+    inversion H; subst; clear H. cbn [core sendloop asy]. split; [apply Hc; reflexivity|]. split; auto.
+    unfold updb. destruct (Nat.eqb_spec c c0); congruence.
+  - simpl in H. rewrite HS in H. discriminate.
+  - simpl in H. unfold round_guard in H. rewrite HS in H. discriminate.
+  - simpl in H. rewrite HS in H. discriminate.
+  - simpl in H. rewrite HS in H. discriminate.
+  - simpl in H. rewrite HS in H. discriminate.
+  - simpl in H. rewrite HS in H. discriminate.
+  - simpl in H. rewrite HS in H. discriminate.
+  - simpl in H. destruct (core_allowed x l) eqn:CA; [|discriminate]. destruct (step (core x) l) as [st|] eqn:E; [|discriminate].
     inversion H; subst; clear H. simpl. repeat split; auto.
     eapply step_keeps_queued_entry; eauto; intros; intro El; subst l; simpl in CA; rewrite ?HS, ?HA in CA; simpl in CA; try discriminate.
-    + eapply N; eauto.
-    + now apply N'.
+    eapply N; eauto.
 Qed.
 
-(* ... and that re-check is enabled: after Close every queued asynchronous call can be failed with the closed error *)
-Lemma async_queuefail_enabled : forall x c, closed (core x) = true -> asy x c = true -> e_st (ent (core x) c) = Queued ->
-  e_comp (ent (core x) c) = [] ->
-  exists x', xstep x (XCore (QueueFail c)) = Some x' /\ e_comp (ent (core x') c) = [Err EClosed] /\ e_st (ent (core x') c) = Retired.
+(* the sender's re-check: an asynchronous call that enqueues its entry while the client is closed is failed at once *)
+Lemma async_submit_when_closed : forall x c h p, closed (core x) = true -> e_st (ent (core x) c) = Fresh ->
+  exists x', xstep x (XSubmit c h p true) = Some x' /\ e_comp (ent (core x') c) = [Err EClosed] /\ e_st (ent (core x') c) = Retired.
 Proof.
-  intros x c HC HA HQ HE. simpl. rewrite HA, HQ, HC. eexists; split; [reflexivity|]. simpl. rewrite upd_same. simpl. rewrite HE. auto.
+  intros x c h p HC HF. unfold xstep.
+  assert (E1 : step (core x) (Submit c h) = Some (with_ent (core x) (upd (ent (core x)) c (mkEntry h Queued [] false None)))).
+  { simpl. now rewrite HF. }
+  rewrite E1. cbn [andb]. cbn [closed with_ent]. rewrite HC.
+  match goal with |- context [step ?st (QueueFail c)] =>
+    assert (E2 : step st (QueueFail c) = Some (with_ent st (upd (ent st) c (complete (ent st c) (Err EClosed))))) end.
+  { simpl. rewrite upd_same. simpl. now rewrite HC. }
+  rewrite E2. eexists; split; [reflexivity|]. simpl. rewrite !upd_same. simpl. auto.
 Qed.
 
 (* failQueuedAsyncRequestsOnClose: when batchSendLoop returns, every asynchronous entry still in the channel is
